@@ -157,7 +157,6 @@ func genAdjacentStream(t *rapid.T) StreamM {
 	o := streamOptsDefault()
 	o.MinItems = 2
 	o.MaxItems = 5
-	o.Junk.Long = false
 	s := genStream(t, o)
 	for i := 0; i+1 < len(s.Items); i++ {
 		it := &s.Items[i]
